@@ -48,13 +48,19 @@ ASSUME ContractTable == TableWellFormed
 
 TextInDomain == InDomain(Text)
 TextBounded == CASE mode = "seq" -> Len(Text) <= MaxLen * MaxTokLen
-                 [] mode = "gram" -> Len(Text) >= 7 /\ Len(Text) <= 16000
+                 [] mode = "gram" -> Len(Text) <= 16000
                  [] mode = "sweep" -> Len(Text) <= 64
                  [] mode = "pump" -> Len(Text) <= PumpLen + 64 /\ Len(Text) >= PumpLen \div 2
                  [] mode = "pump2" -> Len(Text) <= Pump2Len + 64 /\ Len(Text) >= Pump2Len \div 2
                  [] OTHER -> TRUE
 
-Export == IF mode = "table"
+BodyTable == [i \in 1..Len(Bodies) |->
+               [name |-> Bodies[i][1], kind |-> Bodies[i][2], bytes |-> Bodies[i][3], canon |-> CanonicalCType(Bodies[i][2]),
+                cls |-> [j \in 1..Len(CLNames) |-> [name |-> CLNames[j], present |-> CLPresent(CLNames[j]),
+                                                    text |-> CLText(CLNames[j], Len(Bodies[i][3]))]]]]
+Export == IF mode = "table" /\ fam = "body"
+          THEN PrintT(ToJson([table |-> fam, toks |-> Toks(fam), fns |-> FamFns(fam), slots |-> FamSlots(fam), bodies |-> BodyTable]))
+          ELSE IF mode = "table"
           THEN PrintT(ToJson([table |-> fam, toks |-> Toks(fam), fns |-> FamFns(fam), slots |-> FamSlots(fam)]))
           ELSE PrintT(ToJson([fam |-> fam, mode |-> mode, len |-> Len(seq), s |-> Text]))
 =============================================================================
